@@ -112,6 +112,9 @@ def gen_plan(rng, tier, idx, opts):
             if rng.random() < 0.25:
                 ops.append({"op": "post_filter", "seed": None})
                 has_filter = False
+            elif has_filter and rng.random() < 0.3:
+                # the caller edits the container it passed before and passes the SAME object again
+                ops.append({"op": "post_filter", "seed": s(), "same_object": True})
             else:
                 ops.append({"op": "post_filter", "seed": s()})
                 has_filter = True
@@ -336,13 +339,22 @@ def execute(plan):
                     if op["seed"] is None:
                         ch.set_post_filter(None)
                         m.W = None
+                        m.W_obj = None
                     else:
                         rs = np.random.RandomState(op["seed"])
                         W = [rs.randn(n_, n_) + 1j * rs.randn(n_, n_) for n_ in m.Nr]
                         Wa = np.zeros(len(W), dtype=np.ndarray)
                         for i, w in enumerate(W):
                             Wa[i] = w
-                        ch.set_post_filter(Wa)
+                        prev = getattr(m, "W_obj", None)
+                        if op.get("same_object") and prev is not None and len(prev) == len(W):
+                            for i, w in enumerate(W):
+                                prev[i] = w                       # edited in place ...
+                            ch.set_post_filter(prev)              # ... and handed over again
+                            bump(res["probes"], "same_filter_container_passed_again")
+                        else:
+                            m.W_obj = list(W) if op["seed"] % 3 == 0 else Wa      # a plain list of filters is accepted too
+                            ch.set_post_filter(m.W_obj)
                         m.W = W
                     m.W_valid = True
                     res["state_keys"].append("%s|post_filter|cache=%s" % (plan["cls"], cache))
